@@ -339,7 +339,7 @@ class JavaHarness:
             raw = self.proc.ask_raw("%s %s %s %s" % (d, t, op, arg), timeout)
             if raw is None:
                 why = self.proc.last_death or ""
-                if why == "timeout":
+                if str(why).startswith("timeout"):
                     return {"r": "timeout"}
                 return {"r": "abort", "m": why}
             try:
